@@ -15,6 +15,7 @@ func init() {
 	vh.Register("c17", "replay-sema", replaySemaCmd)
 	vh.Register("c17", "race-once", raceOnce)
 	vh.Register("c17", "race-sema", raceSema)
+	vh.Register("c17", "race-contend", raceContend)
 	vh.Register("c17", "stress-once", stressOnce)
 	vh.Register("c17", "stress-sema-hwm", stressSemaHWM)
 	vh.Register("c17", "stress-sema", stressSema)
